@@ -139,8 +139,9 @@ fn lifecycle(kind: &str) -> String {
         }
         // a ticker is (re-)installed on a bar whose earlier ticker has stopped by itself (finish), was disabled, or is still
         // running with the same interval: in every case the bar is redrawn without manual ticks afterwards
-        "revive-after-finish" | "enable-after-disable" | "enable-twice" => {
-            pb.enable_steady_tick(Duration::from_millis(2));
+        "revive-after-finish" | "enable-after-disable" | "enable-twice" | "replace-long-by-short" => {
+            // (replace-long-by-short: the ticker that is replaced sleeps for an hour; the new cadence must take over at once)
+            pb.enable_steady_tick(if kind == "replace-long-by-short" { Duration::from_secs(3600) } else { Duration::from_millis(2) });
             std::thread::sleep(Duration::from_millis(40));
             match kind {
                 "revive-after-finish" => { pb.finish(); std::thread::sleep(Duration::from_millis(60)); pb.reset(); }
@@ -207,7 +208,7 @@ pub fn run(seed: u64, tier: &str, out: &mut Out) {
         out.emit(&format!("NOMODEL SCHED a={a} park={c}{n} b={b} multi={multi}"), &format!(" ORACLE {v}"));
     }
     vh::set_observer(None);
-    for kind in ["ticks-without-manual", "revive-after-finish", "enable-after-disable", "enable-twice", "manual-tick-noop", "finish-stops-ticks", "disable-prompt", "replace-prompt", "drop-prompt"] {
+    for kind in ["ticks-without-manual", "revive-after-finish", "enable-after-disable", "enable-twice", "replace-long-by-short", "manual-tick-noop", "finish-stops-ticks", "disable-prompt", "replace-prompt", "drop-prompt"] {
         let v = lifecycle(kind);
         out.emit(&format!("NOMODEL LIFECYCLE {kind}"), &format!(" ORACLE {v}"));
     }
